@@ -133,11 +133,32 @@ class ModuleState(object):
                      if n.startswith('py_stringsimjoin') and m is not None]
         self.pristine = self._snapshot()
 
+    def _class_attrs(self, m):
+        """(class, name, value) for plain data attributes of the classes a
+        library module defines (a class pickles by reference: a fresh worker
+        sees the values assigned in the class body, not what the coordinator
+        assigned to the class later)."""
+        out = []
+        for k, v in list(vars(m).items()):
+            if isinstance(v, type) and getattr(v, '__module__', None) == \
+                    m.__name__:
+                for ak, av in list(vars(v).items()):
+                    if ak.startswith('__'):
+                        continue
+                    if isinstance(av, self.SIMPLE):
+                        out.append((v, ak, av))
+        return out
+
     def _snapshot(self):
         import copy
         import types
         g, d = [], []
         for m in self.mods:
+            for c, ak, av in self._class_attrs(m):
+                try:
+                    g.append((c, ak, copy.deepcopy(av)))
+                except Exception:   # noqa
+                    pass
             for k, v in list(vars(m).items()):
                 if k.startswith('__'):
                     continue
@@ -199,6 +220,7 @@ class ModuleState(object):
         import types
         g, d = [], []
         for m in self.mods:
+            g.extend(self._class_attrs(m))
             for k, v in list(vars(m).items()):
                 if k.startswith('__'):
                     continue
@@ -224,6 +246,12 @@ class ModuleState(object):
                         (id(m), k) not in keep:
                     try:
                         delattr(m, k)
+                    except Exception:   # noqa
+                        pass
+            for c, ak, av in self._class_attrs(m):
+                if (id(c), ak) not in keep:
+                    try:
+                        delattr(c, ak)
                     except Exception:   # noqa
                         pass
         for m, k, v in g:
